@@ -15,23 +15,23 @@ import (
 
 func init() {
 	for k, v := range map[string]externalFn{
-		"(reflect.Value).Call":          extReflectCall,
-		"(reflect.Value).IsZero":        extReflectIsZero,
-		"(reflect.Value).Bytes":         extReflectBytes,
-		"(reflect.Value).CanSet":        extReflectCanSet,
-		"(reflect.Value).Set":           extReflectSet,
-		"(reflect.Value).String":        extReflectString,
-		"(reflect.Value).Elem":          extReflectElem2,
-		"(reflect.Value).Field":         extReflectField2,
-		"(reflect.Value).IsValid":       extReflectIsValid2,
-		"(reflect.Value).Interface":     extReflectInterface2,
-		"(reflect.Value).Kind":          extReflectKind2,
-		"(reflect.Value).Int":           extReflectInt2,
-		"(reflect.rtype).Implements":    extRtypeImplements,
-		"(reflect.rtype).AssignableTo":  extRtypeAssignableTo,
-		"(reflect.rtype).Name":          extRtypeName,
-		"(reflect.rtype).PkgPath":       extRtypePkgPath,
-		"(reflect.StructTag).Lookup":    nil,
+		"(reflect.Value).Call":         extReflectCall,
+		"(reflect.Value).IsZero":       extReflectIsZero,
+		"(reflect.Value).Bytes":        extReflectBytes,
+		"(reflect.Value).CanSet":       extReflectCanSet,
+		"(reflect.Value).Set":          extReflectSet,
+		"(reflect.Value).String":       extReflectString,
+		"(reflect.Value).Elem":         extReflectElem2,
+		"(reflect.Value).Field":        extReflectField2,
+		"(reflect.Value).IsValid":      extReflectIsValid2,
+		"(reflect.Value).Interface":    extReflectInterface2,
+		"(reflect.Value).Kind":         extReflectKind2,
+		"(reflect.Value).Int":          extReflectInt2,
+		"(reflect.rtype).Implements":   extRtypeImplements,
+		"(reflect.rtype).AssignableTo": extRtypeAssignableTo,
+		"(reflect.rtype).Name":         extRtypeName,
+		"(reflect.rtype).PkgPath":      extRtypePkgPath,
+		"(reflect.StructTag).Lookup":   nil,
 	} {
 		if v == nil {
 			continue
